@@ -445,3 +445,27 @@ def _wide_batch(case):
         cl.append("shared_ref_expanded")
     cl.append("N_%d" % N)
     return Info(nontrivial=True, classes=cl)
+
+
+# ------------------------------------------------------------ short transcripts in wide, eos-padded tensors
+
+
+@st.composite
+def _eos_wide_case(draw, tier):
+    return {
+        "b": draw(G.eos_padded_wide_batch(tier)),
+        "costs": draw(G.dyadic_costs()),
+        "include_eos": draw(st.booleans()), "norm": draw(st.booleans()), "batch_first": draw(st.booleans()),
+        "exclude_last": draw(st.booleans()), "padding": -1, "entry": "function", "layout": "contiguous",
+        "which": draw(st.sampled_from(["distance", "prefix"])),
+    }
+
+
+@subcheck("C01", "eos_padded_wide", lambda tier: _eos_wide_case(tier), 60, 1500,
+          doc="transcripts of <= 6 tokens in tensors 257..530 (thorough ..2049) wide, padded with copies of eos (hundreds of eos per "
+              "row): same DP oracle on the tokens before the first eos")
+def _eos_padded_wide(case):
+    info = _distance_check(case, exact=True) if case["which"] == "distance" else _prefix_check(case, exact=True)
+    info.nontrivial = True
+    info.classes.append("width_ge_257")
+    return info
